@@ -8,7 +8,7 @@ Pattern syntax (space-separated words):
 "`min n len`" · `z<n>` arbitrary leaf "`n` on the empty slice, else 0" (the unfixed `Invert(any)` is `z1`) ·
 `( seq p… )` · `( rep <n> p )` · `( or p… )` · `( all p… )` · `( inv p )` · `( rem p )`.
 -/
-namespace Harper.Driver
+namespace Harper.Driver.Pattern
 open Harper Harper.Proto Harper.Pat
 
 def atomOf (w : String) : Option Pat :=
@@ -169,4 +169,4 @@ def handleRocA : List String → String := handleAll fun p ks => cellMatches (ru
 /-- `fama <L> <pattern>` → `find_all_matches` on every such string -/
 def handleFamA : List String → String := handleAll fun p ks => cellMatches (findAllMatches p ks)
 
-end Harper.Driver
+end Harper.Driver.Pattern
